@@ -128,4 +128,19 @@ def runStall (t : List String) : String :=
     ",".intercalate (s.calls.map fun cl => match cl.state with | .done _ => "ok" | .timedOut => "timeout" | .waiting => "waiting")
   | _ => "bad-op"
 
+/-- `rqdead <n> <victim>`: every stream's first call has id 0 on its own counter; the router tags each request with
+    its stream's routing id and routes each reply by that tag alone (`c02_replies_none_lost_each_to_its_requestor`),
+    also after another requestor's sink has been evicted (`c08_requestors_isolated`): each survivor's reader sees
+    exactly its own reply (`c04_own_reply`), then the reply to its follow-up call. -/
+def runDead (t : List String) : String :=
+  match t with
+  | [n, victim] =>
+    let text := fun (st : Option CallState) => match st with | some (.done _) => "ok" | some .timedOut => "timeout" | _ => "waiting"
+    let survivor : Rq := ((Rq.run [.call]).arrive { reqId := some 0, payload := [] })
+    let after : Rq := (survivor.call).arrive { reqId := some 1, payload := [] }
+    let first := (List.range (nat! n)).map fun i => if i = nat! victim then "gone" else text ((survivor.calls[0]?).map (·.state))
+    let follow := ((List.range (nat! n)).filter (· ≠ nat! victim)).map fun _ => text ((after.calls[1]?).map (·.state))
+    ",".intercalate first ++ " | " ++ ",".intercalate follow
+  | _ => "bad-op"
+
 end Driver.ReqClient
